@@ -419,9 +419,12 @@ def key_range(key, defs):
         bits = unil(p[1])
     elif p[0] == "s":
         a, b, c = [None if x == "_" else int(x) for x in p[1:4]]
-        if b is None or c not in (None, 1) or (a is not None and a < 0) or b < 0:
+        if c == -1 and a is not None and b is not None and a >= 0 and b >= -1:
+            bits = list(range(a, b, -1))                 # a downward slice names the same bits, top first
+        elif b is None or c not in (None, 1) or (a is not None and a < 0) or b < 0:
             return None
-        bits = list(range(a or 0, b))
+        else:
+            bits = list(range(a or 0, b))
     elif p[0] == "d":
         name = str_of(unil(p[1]))
         m = [b for n, b in defs if n == name]
@@ -430,9 +433,10 @@ def key_range(key, defs):
         bits = m[0]
     else:
         return None
-    if not bits or bits[0] < 0 or bits != list(range(bits[0], bits[0] + len(bits))):
+    # the bits may be listed in any order (e.g. most significant first); they must be a contiguous range
+    if not bits or min(bits) < 0 or sorted(bits) != list(range(min(bits), min(bits) + len(bits))):
         return None
-    return bits[0], bits[0] + len(bits)
+    return min(bits), min(bits) + len(bits)
 
 
 def half_even(q):
@@ -720,6 +724,13 @@ def spellings(rng, lo, hi, extra_defs=True):
             l2 = rng.randint(0, 31)
             defs.insert(rng.randint(0, len(defs)), (n, list(range(l2, rng.randint(l2 + 1, 32)))))
     out.append((key_s("d", cps_of(name)), defs_s(defs)))
+    if hi > lo + 1 and rng.random() < 0.35:
+        # the same field with its bits listed top first: list, downward slice, defined name
+        rev = bits[::-1]
+        out.append((key_s("l", rev), "-"))
+        if lo >= 1:
+            out.append((key_s("s", hi - 1, lo - 1, -1), "-"))
+        out.append((key_s("d", cps_of(name)), defs_s([(name, rev)])))
     return out
 
 
